@@ -10,4 +10,4 @@ def register(*pids):
     return deco
 
 
-from . import num  # noqa: E402,F401
+from . import num, parse  # noqa: E402,F401
